@@ -59,6 +59,27 @@ Theorem C11_matrix_target_is_columnwise : forall m f rows j,
 Proof. exact matrix_target_columnwise. Qed.
 Print Assumptions C11_matrix_target_is_columnwise.
 
+(* the two irrational scalers in normal form, for ANY s whose square is the rational core (the real
+   square root the code takes is such an s): VectorScaler outputs have unit euclidean norm,
+   StandarScaler outputs have mean 0 and population variance 1 *)
+Theorem C11_vector_scaler_unit_norm : forall v s,
+  s * s == sumsq v -> ~ s == 0 -> sumsq (map (fun x => x / s) v) == 1.
+Proof. exact vector_scaler_unit_norm. Qed.
+Print Assumptions C11_vector_scaler_unit_norm.
+
+Theorem C11_standard_scaler_mean_0 : forall v s,
+  v <> [] -> ~ s == 0 -> mean (map (fun x => (x - mean v) / s) v) == 0.
+Proof. exact standard_scaler_mean_0. Qed.
+Print Assumptions C11_standard_scaler_mean_0.
+
+Theorem C11_standard_scaler_var_1 : forall v s,
+  v <> [] -> s * s == pvar v -> ~ s == 0 -> pvar (map (fun x => (x - mean v) / s) v) == 1.
+Proof. exact standard_scaler_var_1. Qed.
+Print Assumptions C11_standard_scaler_var_1.
+
+Example C11_irrational_hypotheses_met : (5 * 5 == sumsq [3; 4]) /\ ~ 5 == 0 /\ (1 * 1 == pvar [1; 3]) .
+Proof. repeat split; try reflexivity; intros H; discriminate H. Qed.
+
 Example C11_example :
   on_matrix 2 sum_scale [[1; 2]; [3; 6]; [0; 2]] = [[1 / (1 + (3 + (0 + 0))); 2 / (2 + (6 + (2 + 0)))];
                                                      [3 / (1 + (3 + (0 + 0))); 6 / (2 + (6 + (2 + 0)))];
